@@ -290,13 +290,13 @@ struct ExpNode {
     rel: String,
     dir: bool,
     content: Vec<u8>,
-    /// None when the entry was reached through a link (mode of the image is left open)
+    /// the mode of the real entry: the image of a followed link carries the mode of what the link leads to
     mode: Option<u32>,
 }
 
 /// Expansion of the source with follow; None where the statement is silent (dangling link, chain
 /// of links, link to an ancestor / cycle, root as a target). `visited` receives every real path used.
-fn expand_follow(b: &Tree, p: &str, rel: &str, via_link: bool, depth: usize, visited: &mut Vec<String>, out: &mut Vec<ExpNode>) -> Option<()> {
+fn expand_follow(b: &Tree, p: &str, rel: &str, _via_link: bool, depth: usize, visited: &mut Vec<String>, out: &mut Vec<ExpNode>) -> Option<()> {
     if depth > 4 {
         return None;
     }
@@ -304,11 +304,11 @@ fn expand_follow(b: &Tree, p: &str, rel: &str, via_link: bool, depth: usize, vis
     visited.push(p.to_string());
     match &n.kind {
         Kind::File(d) => {
-            out.push(ExpNode { real: p.to_string(), rel: rel.to_string(), dir: false, content: d.clone(), mode: if via_link { None } else { Some(n.mode) } });
+            out.push(ExpNode { real: p.to_string(), rel: rel.to_string(), dir: false, content: d.clone(), mode: Some(n.mode) });
             Some(())
         },
         Kind::Dir => {
-            out.push(ExpNode { real: p.to_string(), rel: rel.to_string(), dir: true, content: vec![], mode: if via_link { None } else { Some(n.mode) } });
+            out.push(ExpNode { real: p.to_string(), rel: rel.to_string(), dir: true, content: vec![], mode: Some(n.mode) });
             for c in b.children(p) {
                 expand_follow(b, &c, &format!("{}/{}", rel, base_of(&c)), false, depth + 1, visited, out)?;
             }
